@@ -60,7 +60,7 @@ Print Assumptions C17_instrumentation_is_erasable.
    Full statement: forall x, let t := tree (parse x) in
      t outside the finding classes -> tree (parse (serialize t)) = t.
    Proved here: for every document [kids] of the shape the parser produces
-   (prolog of comments / PIs / doctype, one root element, epilog of comments /
+   (prolog of comments / PIs / at most one doctype, one root element, epilog of comments /
    PIs; no adjacent text nodes; names that print and split back; xml / xmlns
    fixed; attributes with distinct expanded names that are not declarations),
    on which the serializer's bookkeeping defects do not come into play
@@ -86,7 +86,7 @@ Print Assumptions C17_roundtrip_partial.
 Theorem C17_roundtrip_partial_explicit :
   forall pre name attrs ks post,
   let kids := pre ++ XElem name attrs ks :: post in
-  forallb is_prolog pre = true -> forallb is_misc post = true ->
+  forallb is_prolog pre = true -> dt_ok false pre = true -> forallb is_misc post = true ->
   node_wf (XElem name attrs ks) = true ->
   ser_clean kids = true ->
   reparse kids = map strip_ids kids.
